@@ -53,6 +53,10 @@ ASSUMPTIONS = ['asyncio.sleep/Task semantics are those of CPython 3.12 running o
                'window lengths are multiples of 1/1024 s and the epoch is an integer, so the limiter\'s float '
                'arithmetic is exact; float rounding for other window lengths is not explored']
 
+class BodyError(Exception):
+    pass
+
+
 TPS = 1 << 20          # oracle ticks per second (the loop's grid)
 ASAP_TOL_TICKS = 2     # ~1.9 us
 
@@ -154,23 +158,85 @@ def run(ctx):
                 if other['id'] < inv['id']:
                     other['overtaken'] = True
 
+        async def entry(me, inv, hold, raises):
+            # one `async with limiter:` in a task of its own, so that it can be cancelled alone
+            st['n_inv'] += 1
+            inv['id'] = st['n_inv']
+            inv['step'] = loop.steps
+            inv['phase'] = 'aenter'
+            log.add(me, 'enter_invoke')
+            st['blocked'][me] = inv
+            try:
+                async with limiter:
+                    inv['phase'] = 'body'
+                    admitted(me, inv)
+                    await asyncio.sleep(hold)
+                    if raises:
+                        ctx.probe('body_raised')
+                        log.add(me, 'body_raises')
+                        raise BodyError()
+                inv['phase'] = 'done'
+            except BodyError:
+                inv['phase'] = 'done'
+            except asyncio.CancelledError:
+                if not inv['cancelled']:
+                    raise RuntimeError(f'{me}: CancelledError although nobody cancelled this entry') from None
+                # an entry cancelled while it waits in __aenter__ was never admitted and leaves; one cancelled in
+                # its body was admitted and counts
+                st['blocked'].pop(me, None)
+                log.add(me, 'cancelled_in', inv['phase'])
+                inv['phase'] = 'done'
+
+        def do_cancel(me, inv, sub):
+            if sub.done():
+                return
+            inv['cancelled'] = True
+            ctx.fault('task.cancel')
+            ctx.probe({'new': 'cancel_before_start', 'aenter': 'cancel_blocked_in_aenter',
+                       'body': 'cancel_in_body'}.get(inv['phase'], 'cancel_other'))
+            log.add('canceller', 'cancel', me, inv['phase'])
+            sub.cancel()
+
         async def entrant(i):
             s = ctx.stream(f'task{i}')
+            c = ctx.stream(f'cancel:{i}')
             me = f'e{i}'
             n_entries = s.rint(1, max_entries)
             pace = s.draw(3)
             think_max = (3, window_g, 2 * window_g)[pace]
             for _ in range(n_entries):
                 await asyncio.sleep(s.ticks(think_max))
-                st['n_inv'] += 1
-                inv = {'id': st['n_inv'], 'step': loop.steps, 'overtaken': False}
-                log.add(me, 'enter_invoke')
-                st['blocked'][me] = inv
-                async with limiter:
-                    admitted(me, inv)
-                    await asyncio.sleep(s.ticks(4))
+                hold = s.ticks(4)
+                raises = s.draw(6) == 5
+                inv = {'id': None, 'step': None, 'overtaken': False, 'cancelled': False, 'phase': 'new'}
+                sub = asyncio.create_task(entry(me, inv, hold, raises), name=me)
+                if c.chance(0.12):
+                    loop.call_later(c.ticks(max(8, window_g)), do_cancel, me, inv, sub)
+                await asyncio.wait({sub})
+                if not sub.cancelled() and sub.exception() is not None:
+                    raise sub.exception()
 
-        tasks = [asyncio.create_task(entrant(i), name=f'e{i}') for i in range(n_tasks)]
+        async def staller():
+            # fault loop.stall: something hogs the event loop; simulated time jumps forward by a seeded number of
+            # 1/1024 s ticks inside one callback, every timer due in the skipped span fires late (at the new now)
+            s = ctx.stream('fault:loop.stall')
+            for _ in range(s.weighted([3, 2, 1, 1])):
+                await asyncio.sleep(s.ticks(2 * window_g))
+                jump_g = s.rint(1, 2 * window_g)
+                t0 = now_ticks(loop)
+                loop._now = loop.quantize(loop._now + jump_g / 1024)  # pylint: disable=protected-access
+                t1 = now_ticks(loop)
+                assert t1 - t0 == jump_g * 1024
+                ctx.fault('loop.stall')
+                log.add('staller', 'stall', jump_g)
+                if st['blocked']:
+                    ctx.probe('stall_while_entrant_blocked')
+                    if len(st['adm']) >= count and st['adm'][-count] + W < t1:
+                        # the sleep of a blocked entrant ends inside the skipped span: it wakes later than asked
+                        ctx.probe('sleep_overshoots')
+
+        tasks = [asyncio.create_task(entrant(i), name=f'a{i}') for i in range(n_tasks)]
+        tasks.append(asyncio.create_task(staller(), name='staller'))
         horizon = (n_tasks * max_entries + 2) * (3 * window_s + 1.0)
         done, pending = await asyncio.wait(tasks, timeout=horizon)
         if st['violation'] is not None:
